@@ -507,12 +507,15 @@ impl<'a> Pool<'a> {
         let generation = self.next_shm;
         std::thread::spawn(move || {
             let mut rd = BufReader::with_capacity(1 << 16, stdout);
-            let mut line = String::new();
+            let mut raw: Vec<u8> = Vec::new();
             loop {
-                line.clear();
-                match rd.read_line(&mut line) {
+                // bytes, not `read_line`: a worker (or roto itself) may print
+                // something that is not UTF-8; that must not look like EOF
+                raw.clear();
+                match rd.read_until(b'\n', &mut raw) {
                     Ok(0) | Err(_) => break,
                     Ok(_) => {
+                        let line = String::from_utf8_lossy(&raw);
                         if let Ok(v) = serde_json::from_str::<Value>(line.trim()) {
                             let unit = v["unit"].as_u64().unwrap_or(0) as usize;
                             let r = UnitResult::from_json(&v["result"]);
